@@ -73,6 +73,9 @@ def check(ctx):
                 ctx.holds("R2-scaling", construct, f"degrees {tuple(str(g) for g in got)}")
             else:
                 ctx.violated("R2-scaling", construct, f"scaling degrees (x,y,fs) are {tuple(str(g) for g in got)}, the property requires {want}", lhs=x)
+    # the sums S1, S2 that calibrate a density must be those of the window requested now (memoised windows keyed completely)
+    from ..dispatch import check_cache_keys
+    check_cache_keys(ctx, rule="R3-window-sums-current", about=("window",))
     table_purity(ctx)
     ctx.trust("E4 partial evaluation of __getattr__", "library model rows for np.divide/np.sqrt/np.abs")
     ctx.assume("exact arithmetic; generic branch = every guarded divisor non-zero (the degenerate branches are C13's)")
